@@ -10,6 +10,7 @@ import (
 
 	"github.com/influxdata/kapacitor"
 	"github.com/influxdata/kapacitor/client/v1"
+	"github.com/influxdata/kapacitor/services/storage"
 	vrt "github.com/influxdata/kapacitor/zz_vrt"
 )
 
@@ -79,6 +80,9 @@ func verifC14Decode(d *json.Decoder, into interface{}) error {
 	case *client.UpdateTaskOptions:
 		*p = verifC14Bodies[i].(client.UpdateTaskOptions)
 		p.DBRPs = append([]client.DBRP(nil), p.DBRPs...)
+		return nil
+	case *client.UpdateTemplateOptions:
+		*p = verifC14Bodies[i].(client.UpdateTemplateOptions)
 		return nil
 	}
 	return errors.New("verif: body type not modelled")
@@ -340,6 +344,78 @@ func VerifC14TaskAPITemplates(v *vrt.T) {
 			v.Assert(ok && t.TemplateID == "tpl", "after an accepted request no association is left behind for a task that is not (any more) from the template")
 		}
 		v.Reach("accepted")
+	}
+	v.Reach("end")
+}
+
+// ---- template API ----
+
+func verifC14TemplateTaskModel(ts *Service, t Template) (*kapacitor.Template, error) {
+	if t.TICKscript == verifC14Bad {
+		return nil, errors.New("no method or property \"bogus\"")
+	}
+	return nil, nil
+}
+
+func verifC14ConvertTemplateModel(ts *Service, t Template, scriptFormat string) (client.Template, error) {
+	return client.Template{ID: t.ID}, nil
+}
+
+// VerifC14TemplateAPI: PATCH of a template through the REAL handleUpdateTemplate, with
+// the real templateKV (associations) over the ordered in-harness store and the real
+// updateAllAssociatedTasks: template tpl with 1..2 tasks created from it (one may be
+// enabled); the request changes the script (to one that evaluates or one that does not),
+// the ID, both or nothing: "updating a template changes all tasks created from it or none of
+// them" - after an accepted request every such task has the new script and carries the
+// template's (new) ID and is listed by the template; after a rejected one nothing changed.
+func VerifC14TemplateAPI(v *vrt.T) {
+	verifRunning = map[string]bool{}
+	verifC14Bodies = nil
+	verifC14Decoders = map[*json.Decoder]int{}
+	faults := &verifFaults{}
+	tasks := &verifTaskDAO{f: faults, tasks: map[string]Task{}}
+	templates := newTemplateKV(storage.VerifNewMem())
+	ts := &Service{tasks: tasks, templates: templates, snapshots: verifC14Snapshots{}, diag: verifDiag{}, TaskMasterLookup: &verifLookup{}}
+	v.Assert(templates.Create(Template{ID: "tpl", Type: StreamTask, TICKscript: verifC14S1}) == nil, "template created")
+	ids := []string{"a", "b"}[:1+v.Choose("tasks", 2)]
+	dbrps := []DBRP{{Database: "db", RetentionPolicy: "rp"}}
+	for i, id := range ids {
+		t := Task{ID: id, Type: StreamTask, TICKscript: verifC14S1, TemplateID: "tpl", DBRPs: append([]DBRP{}, dbrps...)}
+		if i == 0 && v.Choose("first task enabled", 2) == 1 {
+			t.Status = Enabled
+			if err := ts.startTask(t); err != nil {
+				panic(err)
+			}
+		}
+		tasks.tasks[id] = t
+		v.Assert(templates.AssociateTask("tpl", id) == nil, "task associated")
+	}
+	newID := []string{"", "tpl2"}[v.Choose("new id", 2)]
+	script := []string{"", verifC14S2, verifC14Bad}[v.Choose("script", 3)]
+	w := &verifC14RW{header: http.Header{}}
+	r := verifC14Request("PATCH", "", client.UpdateTemplateOptions{ID: newID, TICKscript: script})
+	r.URL.Path = templatesBasePathAnchored + "tpl"
+	ts.handleUpdateTemplate(w, r)
+	v.Observe("status", w.status)
+	accepted := w.status >= 200 && w.status < 300
+	v.Assert(accepted == (script != verifC14Bad), "the update is accepted exactly when the script evaluates")
+	wantScript, wantTpl := verifC14S1, "tpl"
+	if accepted {
+		if script != "" {
+			wantScript = script
+		}
+		if newID != "" {
+			wantTpl = newID
+		}
+	}
+	for _, id := range ids {
+		t, ok := tasks.tasks[id]
+		v.Assert(ok && t.TICKscript == wantScript && t.TemplateID == wantTpl, "every task created from the template has the template's script and ID (all updated, or none)")
+	}
+	listed, err := templates.ListAssociatedTasks(wantTpl)
+	v.Assert(err == nil && len(listed) == len(ids), "the template lists all tasks created from it")
+	if _, err := templates.Get(wantTpl); err != nil {
+		v.Assert(false, "the template exists under its ID")
 	}
 	v.Reach("end")
 }
